@@ -8,7 +8,19 @@ if __name__ == "__main__":
     import bob.state, bob.builder
     ksave = int(os.environ.get("BOBV_KILL_SAVE", "0"))
     kprune = int(os.environ.get("BOBV_KILL_PRUNE", "0"))
-    cnt = {"save": 0, "prune": 0}
+    kinval = int(os.environ.get("BOBV_KILL_INVALIDATE", "0"))
+    cnt = {"save": 0, "prune": 0, "inval": 0}
+    if True:
+        orig_reset = bob.state._BobState.resetWorkspaceState
+
+        def reset(self, path, dirState):
+            r = orig_reset(self, path, dirState)
+            if dirState is None:
+                cnt["inval"] += 1
+                if kinval and cnt["inval"] == kinval:
+                    os._exit(9)
+            return r
+        bob.state._BobState.resetWorkspaceState = reset
     if True:
         orig_save = bob.state._BobState._BobState__save
 
